@@ -110,12 +110,21 @@ theorem compute_za_refines (id : List UInt8) (P : Point) (hP : Valid P) (hz : P.
 
 /-! ### verification -/
 
+/-- the code's test for the point at infinity (Z = 0) is the specification's `none` -/
+theorem is_zero_iff_toSpec_none (T : Point) : T.is_zero = true ↔ toSpec T = none := by
+  unfold Impl.SM2.Point.is_zero toSpec
+  by_cases h0 : T.z = 0
+  · rw [if_pos h0]; simp [h0]
+  · rw [if_neg h0]; simp [h0]
+
 /-- exact characterisation of what `verify_raw` accepts -/
 theorem verify_raw_char (digest sig : List UInt8) (P : Point) (hP : Valid P) (hd : digest.length = 32)
     (hs : sig.length = 64) :
     Impl.SM2.verify_raw digest P sig = .ok () ↔
       1 ≤ beNat (sig.take 32) ∧ beNat (sig.take 32) < n ∧ 1 ≤ beNat (sig.drop 32) ∧ beNat (sig.drop 32) < n
         ∧ (beNat (sig.take 32) + beNat (sig.drop 32)) % n ≠ 0
+        ∧ Spec.EC.add curve (Spec.EC.mul curve (beNat (sig.drop 32)) G)
+              (Spec.EC.mul curve ((beNat (sig.take 32) + beNat (sig.drop 32)) % n) (toSpec P)) ≠ none
         ∧ (beNat digest + xOf (Spec.EC.add curve (Spec.EC.mul curve (beNat (sig.drop 32)) G)
               (Spec.EC.mul curve ((beNat (sig.take 32) + beNat (sig.drop 32)) % n) (toSpec P)))) % n
             = beNat (sig.take 32) := by
@@ -145,70 +154,58 @@ theorem verify_raw_char (digest sig : List UInt8) (P : Point) (hP : Valid P) (hd
   have hm := scalar_mul_good P hP ((r + s) % n) htl
   have ha := add_ok _ _ hg.1 hm.1
   have hx := (affine_xy _ ha.1).1
-  rw [ha.2, hg.2, hm.2] at hx
+  have hz := is_zero_iff_toSpec_none ((Impl.SM2.g_mul s).point_add (P.scalar_mul ((r + s) % n)))
+  rw [ha.2, hg.2, hm.2] at hx hz
   rw [hx]
   have hon : Spec.EC.onCurve curve (Spec.EC.add curve (Spec.EC.mul curve s G)
       (Spec.EC.mul curve ((r + s) % n) (toSpec P))) = true :=
     SpecEC.onCurve_add hc (SpecEC.onCurve_mul hc _ SM2Table.G_onCurve) (SpecEC.onCurve_mul hc _ (oc P hP))
-  generalize Spec.EC.add curve (Spec.EC.mul curve s G) (Spec.EC.mul curve ((r + s) % n) (toSpec P)) = W at hon
+  generalize Spec.EC.add curve (Spec.EC.mul curve s G) (Spec.EC.mul curve ((r + s) % n) (toSpec P)) = W at hon hz
+  by_cases h4 : W = none
+  · rw [if_pos (hz.mpr h4)]; exact ⟨fun h => (err_ne_ok h).elim, fun h => absurd h4 h.2.2.2.2.2.1⟩
+  rw [if_neg (fun h => h4 (hz.mp h))]
   have hxl : xOf W < 2 ^ 256 := Nat.lt_trans (xOf_lt W hon) p_lt'
   rw [reduceN_eq _ hxl, reduceN_eq _ he, fn_add_n _ _ (Nat.mod_lt _ n_pos) (Nat.mod_lt _ n_pos), ← Nat.add_mod,
     Nat.add_comm (xOf W) e]
   by_cases h3 : r = (e + xOf W) % n
-  · rw [if_pos h3]; exact ⟨fun _ => ⟨by omega, hr, by omega, hsn, h2, h3.symm⟩, fun _ => rfl⟩
-  · rw [if_neg h3]; exact ⟨fun h => (err_ne_ok h).elim, fun h => absurd h.2.2.2.2.2.symm h3⟩
+  · rw [if_pos h3]; exact ⟨fun _ => ⟨by omega, hr, by omega, hsn, h2, h4, h3.symm⟩, fun _ => rfl⟩
+  · rw [if_neg h3]; exact ⟨fun h => (err_ne_ok h).elim, fun h => absurd h.2.2.2.2.2.2.symm h3⟩
 
-/-- completeness: what the standard's verifier accepts, the model accepts -/
-theorem verify_raw_complete (digest sig : List UInt8) (P : Point) (hP : Valid P) (hd : digest.length = 32)
-    (hs : sig.length = 64)
-    (h : Spec.SM2.verify (toSpec P) (beNat digest) (beNat (sig.take 32)) (beNat (sig.drop 32)) = true) :
-    Impl.SM2.verify_raw digest P sig = .ok () := by
-  rw [verify_raw_char digest sig P hP hd hs]
-  obtain ⟨a1, a2, a3, a4, a5, x1, y1, hadd, hr⟩ := (SM2Algebra.verify_iff _ _ _ _).mp h
-  exact ⟨a1, a2, a3, a4, a5, by rw [hadd]; exact hr⟩
-
-/-- the model accepts exactly what the standard's verifier accepts, PLUS the signatures for which
-[s]G + [t]P is the point at infinity and r = e mod n (the model reads x₁ = 0 off the point at infinity) -/
-theorem verify_raw_iff (digest sig : List UInt8) (P : Point) (hP : Valid P) (hd : digest.length = 32)
+/-- the model accepts exactly what the standard's verifier accepts (every valid representation of the public key,
+including the point at infinity; 32-byte digest, 64-byte signature) -/
+theorem verify_raw_refines (digest sig : List UInt8) (P : Point) (hP : Valid P) (hd : digest.length = 32)
     (hs : sig.length = 64) :
     Impl.SM2.verify_raw digest P sig = .ok () ↔
-      (Spec.SM2.verify (toSpec P) (beNat digest) (beNat (sig.take 32)) (beNat (sig.drop 32)) = true
-        ∨ (1 ≤ beNat (sig.take 32) ∧ beNat (sig.take 32) < n ∧ 1 ≤ beNat (sig.drop 32) ∧ beNat (sig.drop 32) < n
-            ∧ (beNat (sig.take 32) + beNat (sig.drop 32)) % n ≠ 0
-            ∧ Spec.EC.add curve (Spec.EC.mul curve (beNat (sig.drop 32)) G)
-                (Spec.EC.mul curve ((beNat (sig.take 32) + beNat (sig.drop 32)) % n) (toSpec P)) = none
-            ∧ beNat digest % n = beNat (sig.take 32))) := by
+      Spec.SM2.verify (toSpec P) (beNat digest) (beNat (sig.take 32)) (beNat (sig.drop 32)) = true := by
   rw [verify_raw_char digest sig P hP hd hs, SM2Algebra.verify_iff]
   generalize beNat (sig.take 32) = r
   generalize beNat (sig.drop 32) = s
   generalize beNat digest = e
   cases hW : Spec.EC.add curve (Spec.EC.mul curve s G) (Spec.EC.mul curve ((r + s) % n) (toSpec P)) with
   | none =>
-    simp only [xOf, Nat.add_zero]
     constructor
-    · rintro ⟨a1, a2, a3, a4, a5, a6⟩; exact Or.inr ⟨a1, a2, a3, a4, a5, trivial, a6⟩
-    · rintro (⟨_, _, _, _, _, x1, y1, h, _⟩ | ⟨a1, a2, a3, a4, a5, _, a6⟩)
-      · cases h
-      · exact ⟨a1, a2, a3, a4, a5, a6⟩
+    · rintro ⟨_, _, _, _, _, a6, _⟩; exact absurd rfl a6
+    · rintro ⟨_, _, _, _, _, x1, y1, h, _⟩; cases h
   | some q =>
     obtain ⟨x1, y1⟩ := q
     simp only [xOf]
     constructor
-    · rintro ⟨a1, a2, a3, a4, a5, a6⟩; exact Or.inl ⟨a1, a2, a3, a4, a5, x1, y1, rfl, a6⟩
-    · rintro (⟨a1, a2, a3, a4, a5, x1', y1', h, a6⟩ | ⟨_, _, _, _, _, h, _⟩)
-      · cases h; exact ⟨a1, a2, a3, a4, a5, a6⟩
-      · cases h
+    · rintro ⟨a1, a2, a3, a4, a5, _, a7⟩; exact ⟨a1, a2, a3, a4, a5, x1, y1, rfl, a7⟩
+    · rintro ⟨a1, a2, a3, a4, a5, x1', y1', h, a6⟩
+      cases h; exact ⟨a1, a2, a3, a4, a5, Option.some_ne_none _, a6⟩
 
-/-- soundness away from the corner: if the model accepts and [s]G + [t]P is not the point at infinity then the
-standard's verifier accepts -/
+/-- completeness: what the standard's verifier accepts, the model accepts -/
+theorem verify_raw_complete (digest sig : List UInt8) (P : Point) (hP : Valid P) (hd : digest.length = 32)
+    (hs : sig.length = 64)
+    (h : Spec.SM2.verify (toSpec P) (beNat digest) (beNat (sig.take 32)) (beNat (sig.drop 32)) = true) :
+    Impl.SM2.verify_raw digest P sig = .ok () :=
+  (verify_raw_refines digest sig P hP hd hs).mpr h
+
+/-- soundness: what the model accepts, the standard's verifier accepts -/
 theorem verify_raw_sound (digest sig : List UInt8) (P : Point) (hP : Valid P) (hd : digest.length = 32)
-    (hs : sig.length = 64) (h : Impl.SM2.verify_raw digest P sig = .ok ())
-    (hne : Spec.EC.add curve (Spec.EC.mul curve (beNat (sig.drop 32)) G)
-      (Spec.EC.mul curve ((beNat (sig.take 32) + beNat (sig.drop 32)) % n) (toSpec P)) ≠ none) :
-    Spec.SM2.verify (toSpec P) (beNat digest) (beNat (sig.take 32)) (beNat (sig.drop 32)) = true := by
-  rcases (verify_raw_iff digest sig P hP hd hs).mp h with h | h
-  · exact h
-  · exact absurd h.2.2.2.2.2.1 hne
+    (hs : sig.length = 64) (h : Impl.SM2.verify_raw digest P sig = .ok ()) :
+    Spec.SM2.verify (toSpec P) (beNat digest) (beNat (sig.take 32)) (beNat (sig.drop 32)) = true :=
+  (verify_raw_refines digest sig P hP hd hs).mp h
 
 
 /-! ### signing -/
